@@ -1,11 +1,50 @@
 (* C03 at source level: SKey::as_equal_slice as TRANSLATED FROM src/key.rs on this run.
    Only statements; every proof is `exact` of a lemma from proofs/steps/. *)
-From WS Require Import lib.Bytes lib.Res lib.StepLoop Consts Steps spec.Srp6 proofs.steps.Key.
-Local Open Scope N_scope.
+From Coq Require Import ZArith.
+From WS Require Import lib.Bytes lib.Res lib.StepLoop Consts Steps spec.Srp6 model.Bigint model.Key model.Srp primes.NFacts proofs.Srp proofs.steps.Key proofs.steps.Formulas.
+Local Open Scope Z_scope.
 
 (* the strip that precedes the SHA-1 interleave, for every 32-byte secret *)
 Theorem C03_source_strip : forall s : list N, length s = 32%nat ->
   tr_skey_as_equal_slice 33 s = Some (strip s).
 Proof. exact skey_source_strip. Qed.
 
+(* the formulas, as translated from src/srp_internal.rs and src/srp_internal_client.rs: byte-exact WoW SRP6 *)
+Theorem C03_source_verifier : forall U P salt,
+  tr_srp_calculate_password_verifier Default U P salt = Some (LE32 (sp_v 7 Nz (sp_x U P salt))).
+Proof. intros. rewrite calculate_password_verifier_translated, verifier_spec. reflexivity. Qed.
+
+Theorem C03_source_server_B : forall v b,
+  let B := sp_B 3 7 Nz (le_to_Z v) (le_to_Z b) in
+  (B <> 0 -> tr_srp_calculate_server_public_key Default v b = Some (inl (LE32 B))) /\
+  (B = 0 -> tr_srp_calculate_server_public_key Default v b = Some (inr PublicKeyIsZero)).
+Proof.
+  intros v b. cbv zeta. destruct (server_public_key_spec v b) as [H1 H2]. split; intro H;
+  rewrite calculate_server_public_key_translated; [rewrite (H1 H) | rewrite (H2 H)]; reflexivity.
+Qed.
+
+Theorem C03_source_server_S : forall A v u b,
+  tr_srp_calculate_S Default A v u b = Some (LE32 (sp_S_server Nz (le_to_Z A) (le_to_Z v) (le_to_Z u) (le_to_Z b))).
+Proof. intros. rewrite calculate_S_translated, S_spec. reflexivity. Qed.
+
+(* the client, for ANY announced generator and ANY modulus 0 < N' < 2^256 *)
+Theorem C03_source_client_A : forall a g n', 0 < le_to_Z n' -> le_to_Z n' < 2 ^ 256 ->
+  let A := sp_A (Z.of_N g) (le_to_Z n') (le_to_Z a) in
+  (A <> 0 -> tr_srp_calculate_client_public_key Default a g n' = Some (inl (LE32 A))) /\
+  (A = 0 -> tr_srp_calculate_client_public_key Default a g n' = Some (inr PublicKeyIsZero)).
+Proof.
+  intros a g n' Hp Hl. cbv zeta. destruct (client_public_key_spec a g n' Hp Hl) as [H1 H2]. split; intro H;
+  rewrite calculate_client_public_key_translated; [rewrite (H1 H) | rewrite (H2 H)]; reflexivity.
+Qed.
+
+Theorem C03_source_client_S : forall B x a u g n', 0 < le_to_Z n' -> le_to_Z n' < 2 ^ 256 ->
+  tr_srp_calculate_client_S Default B x a u g n' =
+  Some (LE32 (sp_S_client 3 (Z.of_N g) (le_to_Z n') (le_to_Z B) (le_to_Z x) (le_to_Z a) (le_to_Z u))).
+Proof. intros. rewrite calculate_client_S_translated, client_S_spec by assumption. reflexivity. Qed.
+
 Print Assumptions C03_source_strip.
+Print Assumptions C03_source_verifier.
+Print Assumptions C03_source_server_B.
+Print Assumptions C03_source_server_S.
+Print Assumptions C03_source_client_A.
+Print Assumptions C03_source_client_S.
